@@ -112,6 +112,8 @@ PROPS = {
         "diffs": [
             {"cmd": "gcs", "scenario": "c04x", "quick": 0, "thorough": 0, "exhaustive": True},
             {"cmd": "gcs", "scenario": "c04", "quick": 100, "thorough": 3000},
+            # conditioned writers of different kinds racing on one object: exactly one may pass its precondition
+            {"cmd": "gcsconc", "scenario": "c07s", "quick": 15, "thorough": 300, "corpus": "gcsconc", "args": {"quick": ["--maxruns", "150"], "thorough": ["--maxruns", "2000"]}},
         ],
         "facts": [],
         "trusted": GCS_TRUST,
@@ -121,6 +123,8 @@ PROPS = {
         "lean": "Emu.Props.C10",
         "diffs": [
             {"cmd": "gcs", "scenario": "c10", "quick": 100, "thorough": 2500},
+            # the versioning laws under concurrent writers of one object (generations still only grow)
+            {"cmd": "gcsconc", "scenario": "c07s", "quick": 15, "thorough": 300, "corpus": "gcsconc", "args": {"quick": ["--maxruns", "150"], "thorough": ["--maxruns", "2000"]}},
         ],
         "facts": [],
         "trusted": GCS_TRUST,
@@ -160,11 +164,11 @@ PROPS = {
         "lean": "Emu.Props.C07",
         "diffs": [
             {"cmd": "gcsconc", "scenario": "c07s", "quick": 40, "thorough": 800, "corpus": "gcsconc", "args": {"quick": ["--maxruns", "250"], "thorough": ["--maxruns", "3000"]}},
-            {"cmd": "gcsconc", "scenario": "c07t", "quick": 12, "thorough": 120, "engines": "file", "corpus": "gcsconc"},
+            {"cmd": "gcsconc", "scenario": "c07t", "quick": 10, "thorough": 120, "engines": "file", "corpus": "gcsconc"},
         ],
         "facts": ["gcs.filestore_fields", "lock.state_access_outside_map_mu"],
         "trusted": GCS_TRUST + ["the per-object lock is gcsutil.TransientLockMap (C19); sync.RWMutex of the file store and the memory store's mutex make each store operation atomic (the tear scenario parks a writer between the file store's two file writes to check exactly that)"],
-        "assumptions": ["concurrent requests are parked only at the repository's yield points (before the object lock, just inside it, right after its release, and — tear scenario — between the file store's content write and sidecar write)",
+        "assumptions": ["concurrent requests are parked only at the repository's yield points (before the object lock, just inside it, right after its release, and — tear scenario — between the file store's content write and sidecar write, and between a file-store read's sidecar read and content read)",
                         "symbolic conditions (generation = current) of the concurrent requests are resolved against the state after the sequential prefix, on both sides"],
     },
     "C18": {
